@@ -119,7 +119,7 @@ func outOfOrderProbe(c *Case, inc *Inc) {
 
 func init() {
 	Register(&Check{ID: "C08", Level: "exploration",
-		Rule: "one case = one generated workflow with pass-through recorder components (public component API) on the out-port edges of every command process (other shapes: several sub-stream carriers, FileSplitter parts, IPSelectorSync out-ports, a source listing one file twice, a process with a streamed and an ordinary out-port), 1..8 slots and command durations over 6 orders of magnitude so that later tasks often finish first (probe task-finished-out-of-order); the recorded sequence of every edge must equal the order in which the producing input sets were received (reference order for single-upstream ports, per-upstream projection for fan-in). Round 5: FileCombinator fed by sources that list their files in permuted order (first occurrences keep arrival order). Round 6: tagging components with recorders behind them, some files left untagged. Round 7: a listed file that does not exist between ordered items. distinct = event-log hash; non-trivial = >=2 tasks and >=1 non-default choice",
+		Rule: "one case = one generated workflow with pass-through recorder components (public component API) on the out-port edges of every command process (other shapes: several sub-stream carriers, FileSplitter parts, IPSelectorSync out-ports, a source listing one file twice, a process with a streamed and an ordinary out-port), 1..8 slots and command durations over 6 orders of magnitude so that later tasks often finish first (probe task-finished-out-of-order); the recorded sequence of every edge must equal the order in which the producing input sets were received (reference order for single-upstream ports, per-upstream projection for fan-in). Round 5: FileCombinator fed by sources that list their files in permuted order (first occurrences keep arrival order). Round 6: tagging components with recorders behind them, some files left untagged. Round 7: a listed file that does not exist between ordered items. Round 8: the FileSplitter shape run a second time with ten and more parts. distinct = event-log hash; non-trivial = >=2 tasks and >=1 non-default choice",
 		Run: func(c *Case) Verdict {
 			var w *WF
 			switch c.Tape.Choose(simrt.StGen, 8, 0) {
@@ -757,7 +757,7 @@ var profC16 = Profile{
 
 func init() {
 	Register(&Check{ID: "C16", Level: "exploration",
-		Rule: "two kinds of cases, tape-chosen: (a) a generated workflow with exactly one in-port or parameter port left unconnected: the program must exit != 0 with an EMPTY command-execution trace; (b) RunTo / RunToRegex / RunToProcs with 1..3 tape-chosen targets on a generated graph (diamonds, parameter edges, fan-in): the set of processes with any start event must equal the reference closure exactly, all their tasks executed exactly once, final files = reference evaluation of the closure. Round 5: every script the program starts is recorded; half of the ParamSource nodes are CommandToParams components whose command counts like any other; RunTo* with an empty target set must start nothing. Round 6: the unconnected port may lie inside a RunTo closure; a CommandToParams component may itself be a RunTo target (its drained stream must have been produced when Run returns). Round 7: several processes without out-ports as RunTo targets; dotted process names. distinct = event-log hash; non-trivial = (a) the refusal, (b) >=2 tasks executed; and >=1 non-default choice",
+		Rule: "two kinds of cases, tape-chosen: (a) a generated workflow with exactly one in-port or parameter port left unconnected: the program must exit != 0 with an EMPTY command-execution trace; (b) RunTo / RunToRegex / RunToProcs with 1..3 tape-chosen targets on a generated graph (diamonds, parameter edges, fan-in): the set of processes with any start event must equal the reference closure exactly, all their tasks executed exactly once, final files = reference evaluation of the closure. Round 5: every script the program starts is recorded; half of the ParamSource nodes are CommandToParams components whose command counts like any other; RunTo* with an empty target set must start nothing. Round 6: the unconnected port may lie inside a RunTo closure; a CommandToParams component may itself be a RunTo target (its drained stream must have been produced when Run returns). Round 7: several processes without out-ports as RunTo targets; dotted process names. Round 8: inline flags in RunToRegex patterns. distinct = event-log hash; non-trivial = (a) the refusal, (b) >=2 tasks executed; and >=1 non-default choice",
 		Run: func(c *Case) Verdict {
 			switch c.Tape.Choose(simrt.StGen, 6, 0) {
 			case 1:
